@@ -162,6 +162,11 @@ pub fn set_class_mask(mask: u32) {
     CLASS_MASK.store(mask, Ordering::SeqCst);
 }
 
+/// The site classes at which managed threads yield right now.
+pub fn class_mask() -> u32 {
+    CLASS_MASK.load(Ordering::SeqCst)
+}
+
 /// Disables (or re-enables) every epoch advance that is not wrapped in [`force_advance`].
 pub fn set_advance_blocked(b: bool) {
     ADVANCE_BLOCKED.store(b, Ordering::SeqCst);
